@@ -692,21 +692,43 @@ def r19_6(prog, rep, rid="R19.6"):
             continue
         f = prog.fn(name)
         x = f.params[1]["n"]
-        forms = set()
-        for b in f.cfg.blocks:
-            c = f.cfg.cond(b)
-            if c is None:
+        cfg = f.cfg
+        from ..flow import edge_dominates
+        # where the positive word is read as a bitset (shifted by the value): the branch edges that lead there must say 0 < x,
+        # however the test is spelt (`x > 0` taken, or `x <= 0` not taken)
+        reads = []
+        for b, i, e, line in cfg.all_elems():
+            if not isinstance(e, dict):
                 continue
-            for a in cond_atoms(c, True):
-                if len(a) == 5 and a[0] in ("<", "<=") and "0" in (a[1], a[2]) and x in (a[1], a[2]):
-                    forms.add("%s %s %s" % (a[1], a[0], a[2]))
+            for q in walk(cfg.resolve(e)):
+                if q.get("k") == "bin" and q["op"] == ">>" and lv(strip_casts(q["l"])).endswith(".pos") and \
+                        any(r_.get("k") == "ref" and r_.get("n") == x for r_ in walk(q["r"])):
+                    reads.append((b, line))
         n += 1
         key = "%s/split" % name
-        if forms == {"0 < %s" % x}:
+        if not reads:
+            rep.broken_("rule=%s %s: no read of the positive word as a bitset found" % (rid, name))
+            continue
+        bad = []
+        for rb, line in reads:
+            atoms = set()
+            for g in cfg.blocks:
+                c = cfg.cond(g)
+                if c is None:
+                    continue
+                for si, s_ in enumerate(cfg.blocks[g].succs):
+                    if s_ is not None and si not in cfg.blocks[g].dead and (edge_dominates(cfg, g, si, rb)):
+                        for a in cond_atoms(c, si == 0):
+                            if len(a) == 5:
+                                atoms.add((a[0], a[1], a[2]))
+            if ("<", "0", x) not in atoms:
+                bad.append((line, sorted(a for a in atoms if x in a[1:])))
+        if not bad:
             rep.ok(rid, key, f.loc(), "positive word is consulted for 0 < %s only, like in the assign function" % x)
         else:
-            rep.fail(rid, key, f.loc(), "membership splits the value by %s while insertion splits by `0 < x`: the member 0 (kept in bit 0 of the "
-                     "negative word) is looked up in the positive word, whose bit 0 is the representation tag" % (sorted(forms) or "no comparison with 0"))
+            rep.fail(rid, key, f.loc(bad[0][0]), "membership reads the positive word under %s while insertion files a value there for `0 < x` only: the member 0 "
+                     "(kept in bit 0 of the negative word) is looked up in the positive word, whose bit 0 is the representation tag" % (
+                         [" ".join((a[1], a[0], a[2])) for a in bad[0][1]] or "no comparison of the value with 0"))
     # (b) shift width
     for f in prog.fns_in("bitint.h"):
         if not f.cfg or not f.name.startswith(("ass_", "bi", "bui")):
